@@ -316,12 +316,20 @@ pub fn run(c: &Value) -> Value {
                 Ok(v) => (Value::Array(v.into_iter().map(|r| res(Ok(r), narsese_to)).collect()), false),
                 Err(_) => (json!([]), true),
             };
-            let alone: Vec<Value> = inputs.iter().map(|s| enum_parse(fmt, s)).collect();
+            // the reference parse of each input runs on a FRESH thread: nothing parsed earlier (thread-local or otherwise tied to
+            // this worker thread) can have touched it
+            let fresh = |s: &String, lexical: bool| -> Value {
+                std::thread::scope(|sc| {
+                    std::thread::Builder::new().stack_size(256 << 20).spawn_scoped(sc, || if lexical { lex_parse(fmt, s).0 } else { enum_parse(fmt, s) })
+                        .expect("spawn").join().unwrap_or_else(|_| json!({"r":"panic","msg":"fresh thread died"}))
+                })
+            };
+            let alone: Vec<Value> = inputs.iter().map(|s| fresh(s, false)).collect();
             let twice: Vec<Value> = inputs.iter().map(|s| enum_parse(fmt, s)).collect();
             let chars: Vec<Value> = inputs.iter().map(|s| res(guarded(|| f.parse_chars::<en::Narsese>(s.chars().collect())), narsese_to)).collect();
             // lexical parser used repeatedly in the given order, then each alone again (statics are shared)
             let lex_seq: Vec<Value> = inputs.iter().map(|s| lex_parse(fmt, s).0).collect();
-            let lex_again: Vec<Value> = inputs.iter().rev().map(|s| lex_parse(fmt, s).0).collect::<Vec<_>>().into_iter().rev().collect();
+            let lex_again: Vec<Value> = inputs.iter().map(|s| fresh(s, true)).collect();
             json!({"inputs":inputs,"multi":multi,"multi_panic":multi_panic,"alone":alone,"twice":twice,"chars":chars,"lex_seq":lex_seq,"lex_again":lex_again})
         }
         // ------------------------------------------------------------ M1 event trace (hooks, --cfg narsese_verif)
@@ -458,8 +466,9 @@ pub fn run(c: &Value) -> Value {
                 o["en_try"] = match guarded(|| x.try_validate().map(|v| *v).map_err(|e| e.to_string())) {
                     Ok(Ok(v)) => json!({"r":"ok","bits":bits(v)}), Ok(Err(e)) => json!({"r":"err","msg":e}), Err(p) => json!({"r":"panic","msg":p}) };
                 o["en_validate"] = match guarded(|| *x.validate()) { Ok(v) => json!({"r":"ok","bits":bits(v)}), Err(p) => json!({"r":"panic","msg":p}) };
-                let roots: Vec<Value> = [1usize, 2, 3, 7, 64, 1000, 1 << 31, (1 << 31) + 1, usize::MAX / 2 + 1, usize::MAX].iter().map(|n| {
-                    match guarded(|| x.root(*n)) { Ok(r) => json!({"n":n,"bits":bits(r),"valid":r.is_valid()}), Err(p) => json!({"n":n,"panic":p}) }
+                // `valid` is the library's own verdict on the root, `in_unit` the primitive comparison 0 <= r <= 1 (false for NaN)
+                let roots: Vec<Value> = [0usize, 1, 2, 3, 7, 64, 1000, 1 << 31, (1 << 31) + 1, usize::MAX / 2 + 1, usize::MAX].iter().map(|n| {
+                    match guarded(|| x.root(*n)) { Ok(r) => json!({"n":n,"bits":bits(r),"valid":r.is_valid(),"in_unit":r >= 0.0 && r <= 1.0}), Err(p) => json!({"n":n,"panic":p}) }
                 }).collect();
                 o["en_roots"] = Value::Array(roots);
                 o["en_zero_one"] = json!([bits(<f64 as EvidentNumber>::zero()), bits(<f64 as EvidentNumber>::one())]);
